@@ -56,7 +56,7 @@ LEVEL_NOTE = ("Trusted base: the simulator runtime (simrt/), the instrumenter's 
 NOT_APPLICABLE = {}
 
 FO_RULE = ("Scenarios are drawn from the seeded PRNG (clients, keys, Gets with builder scripts, initial entry state per key, "
-           "FailoverConfig, backend kind, API flavour, fault plan) and executed under random / PCT / mostly-sequential "
+           "FailoverConfig, backend kind, API flavour, value representation on the untyped API (struct, slice, map, struct-with-slice, pointer), fault plan) and executed under random / PCT / mostly-sequential "
            "schedules at call-out and lock granularity. ")
 
 prop("C02", quick={"runs": 8000}, thorough={"runs": 100000000, "budget_s": 600}, level="fault_enumeration",
@@ -82,9 +82,10 @@ prop("C04", quick={"runs": 8000}, thorough={"runs": 100000000, "budget_s": 600},
      "are injected. After quiescence everything is expired and one fault-free Get per key is issued. Non-trivial: overlapping Gets on one key.",
      rules=["C04.R1 stuck (scheduler state, not a timeout)", "C04.R2 lock-leak (VerifKeyLocks()==0 at quiescence)",
             "C04.R3 cannot-rebuild (follow-up Get must invoke its builder and return its value)",
-            "C04.R4 last-build-lost (every successful build's value was stored under the Get's key)"],
+            "C04.R4 last-build-lost (every successful build's value was stored under the Get's key)",
+            "C04.R5 old-backend-error-served (the error of a rejected backend call never answers a Get invoked after it with nothing in flight for the key)"],
      probes=["key_overwritten_while_background_build_pending", "ctx_cancelled_with_background_build", "background_build",
-             "get_invoked_during_build"])
+             "get_invoked_during_build", "backend_error_reached_a_get"])
 prop("C05", quick={"runs": 8000}, thorough={"runs": 100000000, "budget_s": 600},
      rule=FO_RULE + "Even runs: SyncRead bursts of 2-8 clients on one missing/expired key; odd runs: sequences of Gets with failing "
      "builders and clock jumps around FailedUpdateTTL. Non-trivial: overlapping Gets on one key.",
@@ -93,21 +94,23 @@ prop("C05", quick={"runs": 8000}, thorough={"runs": 100000000, "budget_s": 600},
      probes=["syncread_burst_single_build", "get_inside_failure_window", "get_after_uncached_failure"])
 prop("C06", quick={"runs": 8000}, thorough={"runs": 100000000, "budget_s": 600},
      rule=FO_RULE + "Caller contexts carry TTL cells (positive, zero, negative), builders call WithTTL 0-3 times in both updateExisting "
-     "modes, callers cancel before/after return or let a deadline pass. Non-trivial: at least one builder invocation.",
-     rules=["C06.R1 final store TTL = reference fold", "C06.R2 stale re-store uses UpdateTTL", "C06.R3 caller context TTL after Get",
+     "modes, callers cancel before/after return or let a deadline pass; one family shares a request context between goroutines, one rebuilds "
+     "values equal to the stale ones (ObserveMutability on/off). Non-trivial: at least one builder invocation.",
+     rules=["C06.R1 the final store exists and its TTL = reference fold", "C06.R2 stale re-store uses UpdateTTL", "C06.R3 caller context TTL after Get",
             "C06.R4 background build context: no Err, no deadline, Done never fires, values visible", "C06.R5 SkipRead rebuilds and stores"],
      probes=["builder_communicated_ttl", "background_build_ctx_observed", "background_build_with_cancelled_caller_ctx",
-             "stale_refresh_write", "lone_skipread_get", "shared_request_context"])
+             "stale_refresh_write", "lone_skipread_get", "shared_request_context", "rebuilt_value_equal_to_stale_one"])
 
 BE_RULE = ("Backend scenarios (keys incl. empty, 1-byte, 300-byte, binary, common-prefix and constructed xxhash64 collision "
-           "families; unique value tokens; TTL modes default / unlimited / per-call positive / negative; SkipRead) are drawn from the "
+           "families; unique value tokens, on the untyped backends carried as struct, slice, map, struct-with-slice or pointer; TTL modes default / unlimited / per-call positive / negative; SkipRead) are drawn from the "
            "seeded PRNG and executed on ShardedMap, SyncMap and ShardedMapOf under the simulated clock. ")
 prop("C07", quick={"runs": 16000}, thorough={"runs": 100000000, "budget_s": 600},
      rule=BE_RULE + "One client issues 1-40 operations with clock jumps from ns to days; each result is compared with a reference "
-     "map with per-entry expiry intervals. Non-trivial: >= 2 operations; distinct = distinct (scenario, schedule signature).",
+     "map with per-entry expiry intervals; Walk callbacks and Dump writers fail at chosen positions and the sequence goes on. Non-trivial: >= 2 operations; distinct = distinct (scenario, schedule signature).",
      rules=["C07.<op>: Read/Load/Delete/Len/Walk results equal the reference map's; ExpireAll expires everything incl. never-expiring; "
-            "expired reads carry value and expiry instant"],
-     probes=["read:nil", "read:notfound", "read:expired", "delete:nil", "delete:notfound", "expireAll", "deleteAll", "walk", "len", "load", "store"])
+            "expired reads carry value and expiry instant", "C07.walkErr / dumpErr: a failing callback / writer stops the walk, its error and the count of completed callbacks are returned",
+            "C07.STUCK an operation of the sequence never returns (scheduler state, not a timeout)", "C07.PANIC an operation panicked"],
+     probes=["read:nil", "read:notfound", "read:expired", "delete:nil", "delete:notfound", "expireAll", "deleteAll", "walk", "walkErr", "dumpErr", "len", "load", "store"])
 prop("C10", quick={"runs": 16000}, thorough={"runs": 100000000, "budget_s": 600},
      rule=BE_RULE + "Root-driven (no concurrency): 1-6 writes with config TTL {default, unlimited, 1ns..10y, negative -2ns..-1y}, context TTL {none, 0, +-1ns..+-10y}, "
      "ExpirationJitter {disabled, default, values in (0,1]}, jitter draw {0, 0.5, 1-2^-53, PRNG}; after each write Walk gives ExpireAt, the clock "
@@ -124,10 +127,11 @@ prop("C11", quick={"runs": 30000}, thorough={"runs": 100000000, "budget_s": 600}
              "unlimited_cache_with_explicit_ttl_cycle", "entry_without_expiry_restored", "fresh_write_during_cleanup_cycle"])
 prop("C12", quick={"runs": 6000}, thorough={"runs": 100000000, "budget_s": 600},
      rule=BE_RULE + "Root-driven fill of 1-400 entries around CountSoftLimit, access histories (reads at distinct simulated instants, rewrites), "
-     "EvictionNeeded scripts, EvictFraction in (0,1], three strategies; the real janitor/eviction runs as a scheduled task. Non-trivial: at least one cycle.",
+     "EvictionNeeded scripts, HeapInUseSoftLimit / SysMemSoftLimit at the two allocator-independent settings (1 byte: always exceeded, MaxUint64: never), "
+     "EvictFraction in (0,1], three strategies; the real janitor/eviction runs as a scheduled task. Non-trivial: at least one cycle.",
      rules=["C12.R1 no trigger -> nothing removed", "C12.R2 amount (fraction / down to CountSoftLimit*(1-f) within one entry)",
             "C12.R3 max rank(removed) <= min rank(kept) under the strategy, ranks from the harness access log", "C12.R4 cache_evict equals entries removed"],
-     probes=["cycle_without_trigger", "cycle_count_breach", "cycle_eviction_needed", "order_checked", "long_expired_entry_purged_in_eviction_cycle", "overlapping_serves_of_one_key"])
+     probes=["cycle_without_trigger", "cycle_count_breach", "cycle_eviction_needed", "cycle_memory_limit_breach", "order_checked", "long_expired_entry_purged_in_eviction_cycle", "overlapping_serves_of_one_key"])
 prop("C08", quick={"runs": 40000}, thorough={"runs": 100000000, "budget_s": 600},
      rule=BE_RULE + "2-16 client tasks issue 1-5 operations each over <= 4 keys (partly constructed hash collisions); in half of the runs the real "
      "janitor runs cleanup/eviction cycles concurrently. Histories (invoke/return event sequence numbers, batch operations expanded into one "
@@ -146,10 +150,10 @@ prop("C09", quick={"runs": 12000}, thorough={"runs": 100000000, "budget_s": 600}
      probes=["write_to_colliding_key", "key_buffer_rewritten_after_backend_call", "key_overwritten_while_background_build_pending", "failover_over_colliding_keys"])
 prop("C18", quick={"runs": 12000}, thorough={"runs": 100000000, "budget_s": 600},
      rule="Half of the runs: Failover workloads (as C02, faults in a quarter) with the harness stats tracker attached, frontend 'fo' and backend 'be' "
-     "named differently; other half: backend workloads (sequential with ExpireAll/DeleteAll, concurrent without). At quiescence the metric sums are "
+     "named differently; other half: backend workloads (sequential with ExpireAll/DeleteAll, concurrent without; 30 % over constructed hash collision families). At quiescence the metric sums are "
      "compared with the harness's own event log. Non-trivial: at least one operation.",
      rules=["C18.build / failed / refreshed (frontend)", "C18.write / delete / reads (hit+miss+expired = non-skipped reads + entries touched by ExpireAll)"],
-     probes=["refresh_counted", "failed_build_counted", "expireAll_counted", "deleteAll_counted", "concurrent_metrics_checked", "deleteAll_concurrent_with_writes", "expireAll_concurrent_with_writes"])
+     probes=["refresh_counted", "failed_build_counted", "expireAll_counted", "deleteAll_counted", "concurrent_metrics_checked", "deleteAll_concurrent_with_writes", "expireAll_concurrent_with_writes", "colliding_write_replaced_entry"])
 TR_RULE = "Root-driven scenarios drawn from the seeded PRNG; the simulator owns the byte stream / round-tripper / deleters and the iteration order of maps and sync.Map (so every Walk order the source can produce is sampled). "
 prop("C13", quick={"runs": 6000}, thorough={"runs": 100000000, "budget_s": 600},
      rule=TR_RULE + "Source caches with 0-300 entries (keys of differing lengths incl. empty and binary, values nil / zero / populated structs / maps / pointers, "
